@@ -55,7 +55,7 @@ func (eng *Engine) VerifyFunction(fn *ssa.Function, key string, sp *FuncSpec) *U
 	t0 := time.Now()
 	res := &UnitResult{Func: shortFn(fn.String()), Key: key, SSAHash: ssaHash(fn)}
 	c := NewCtx()
-	u := &Unit{eng: eng, c: c, m: NewMem(c), fn: fn, spec: sp, names: map[string]int{}, inlined: map[string]bool{}, extUsed: map[string]bool{}}
+	u := &Unit{eng: eng, c: c, m: NewMem(c), fn: fn, spec: sp, names: map[string]int{}, inlined: map[string]bool{}, extUsed: map[string]bool{}, placedInv: map[string]bool{}, unfolded: map[string]bool{}}
 	res.unit = u
 	u.m.sliceHook = func(s SliceV) {
 		if u.discov == 0 {
@@ -181,6 +181,13 @@ func (u *Unit) build() {
 		return
 	}
 	fr.run(nil, u.fn.Blocks[0], entry, TTrue, nil, false)
+	if u.spec != nil {
+		for _, inv := range u.spec.Invs {
+			if !u.placedInv[inv.Text] {
+				u.unsupportedf("invariant %q could not be attached to any loop of %s (unresolved names?)", inv.Text, u.fn.Name())
+			}
+		}
+	}
 	// postconditions at every return point
 	if u.spec != nil {
 		for _, r := range fr.rets {
